@@ -255,7 +255,9 @@ def probes(r, cfg):
         wr('eco_mode_3', group_bytes(inv, 'charge'))       # the same value again
     # C19: round trips
     if fam in ('ET', 'ES'):
-        for m, p, soc in ((OM.ECO_CHARGE, 55, 70), (OM.GENERAL, 100, 100), (OM.ECO_DISCHARGE, 9, 100), (OM.BACKUP, 100, 100)):
+        # (the arguments of the history letters come first: a probe call that repeats the history's last call must work too)
+        for m, p, soc in ((OM.ECO_CHARGE, 45, 80), (OM.ECO_DISCHARGE, 9, 100), (OM.ECO_CHARGE, 55, 70), (OM.GENERAL, 100, 100),
+                          (OM.ECO_DISCHARGE, 9, 100), (OM.BACKUP, 100, 100), (OM.OFF_GRID, 100, 100)):   # (plain ECO is judged in C19 itself: the getter classifies group 1)
             a = r.call(inv.set_operation_mode, m, p, soc)
             if a[0] != 'ok':
                 continue
@@ -275,14 +277,14 @@ def probes(r, cfg):
                     gp_ = refdec.power_percent(ref['schedule_type'], ref['power']) if v2 else ref['power']
                     if gp_ != (-p if m == OM.ECO_CHARGE else p) or (v2 and ref['schedule_type'] not in (0, 6)):
                         out.append(('C19', f'group1-power/{m.name}', f'requested {p}, group 1 = {raw.hex()}'))
-        for d in (0, 37, 100):
+        for d in (99, 30, 0, 37, 100):
             a = r.call(inv.set_ongrid_battery_dod, d)
             l0 = len(dev.log)
             g = r.call(inv.get_ongrid_battery_dod)
             reads_only(l0, 'get_ongrid_battery_dod')
             if a[0] == 'ok' and (g[0] != 'ok' or g[1] != d):
                 out.append(('C19', 'dod-round-trip', f'set {d}, get -> {str(g)[:60]}'))
-    for x in (0, 1234):
+    for x in (5000, 1, 0, 1234):
         a = r.call(inv.set_grid_export_limit, x)
         l0 = len(dev.log)
         g = r.call(inv.get_grid_export_limit)
